@@ -81,6 +81,10 @@ def functions():
         df = fa.flux_variability_analysis(m, reaction_list=items, fraction_of_optimum=0.8, processes=p)
         return {i: (float(df.at[i, "minimum"]), float(df.at[i, "maximum"])) for i in df.index}
 
+    def fva_loopless(m, items, p):
+        df = fa.flux_variability_analysis(m, reaction_list=items, loopless=True, processes=p)
+        return {i: (float(df.at[i, "minimum"]), float(df.at[i, "maximum"])) for i in df.index}
+
     def blocked(m, items, p):
         got = set(fa.find_blocked_reactions(m, reaction_list=items, processes=p))
         return {getattr(i, "id", i): (1.0 if getattr(i, "id", i) in got else 0.0,) for i in items}
@@ -150,6 +154,7 @@ def functions():
     return {
         "fva": (fva, "reactions", True),
         "fva(fraction)": (fva_frac, "reactions", True),
+        "fva(loopless)": (fva_loopless, "reactions", True),
         "find_blocked_reactions": (blocked, "reactions", True),
         "single_reaction_deletion": (srd, "reactions", True),
         "single_gene_deletion": (sgd, "genes", True),
@@ -334,6 +339,20 @@ def run_function(acc, rng, model, fname, F, ident0, tmpdir, rec_sig):
                     dict(ident, item=proved[0][0], parallel=list(proved[0][1]), serial=list(proved[0][2]), n_differing=len(proved)),
                 )
             bad = [b for b in bad if b not in proved]
+        if bad and fname == "fva(loopless)":
+            # the loopless option post-processes whichever optimal vertex the solver stops at (CycleFreeFlux, C05's
+            # recorded inexactness): for a reaction on an internal cycle the reported extreme follows that vertex and with
+            # it the basis the worker's previous task left.  Proved per item: the reaction lies on an internal cycle
+            # (exact null space of the internal stoichiometry).  A reaction on no cycle has one loop-free answer.
+            cyc = set(oracles.Cycles(model).cycle_rxns)
+            proved = [b for b in bad if b[0] in cyc]
+            if proved:
+                acc.violation(
+                    "C14/fva(loopless)/cyclefreeflux-result-follows-the-vertex-the-worker-stops-at",
+                    f"fva(loopless): {proved[0][0]} (on an internal cycle) = {proved[0][1]} with {p} processes / this order, {proved[0][2]} serially",
+                    dict(ident, item=proved[0][0], parallel=list(proved[0][1]), serial=list(proved[0][2]), n_differing=len(proved)),
+                )
+            bad = [b for b in bad if b not in proved]
         if bad:
             acc.violation(
                 f"C14/{fname}/value-depends-on-schedule",
@@ -358,6 +377,13 @@ def run_function(acc, rng, model, fname, F, ident0, tmpdir, rec_sig):
                 acc.violation(
                     f"C14/{fname.split('(')[0]}/linear-moma/growth-not-unique-at-the-minimal-adjustment-optimum",
                     f"{fname}: {it} alone gives {one.get(k)}, in the full list {base_res.get(k)}; both lie in the exact range of the objective over all minimal-adjustment solutions",
+                    dict(ident0, function=fname, item=it),
+                )
+                continue
+            if fname == "fva(loopless)" and k in one and k in base_res and not all(near(a, b) for a, b in zip(one[k], base_res[k])) and k in set(oracles.Cycles(model).cycle_rxns):
+                acc.violation(
+                    "C14/fva(loopless)/cyclefreeflux-result-follows-the-vertex-the-worker-stops-at",
+                    f"fva(loopless): {it} (on an internal cycle) alone gives {one.get(k)}, in the full list {base_res.get(k)}",
                     dict(ident0, function=fname, item=it),
                 )
                 continue
